@@ -369,7 +369,14 @@ func (s Sub[C]) Check(t *testing.T) {
 	t.Helper()
 	defer func() {
 		if t.Failed() {
-			promote(s.Name)
+			S.mu.Lock()
+			_, recorded := S.last[s.Name]
+			S.mu.Unlock()
+			// in -race builds the testing package fails a test when the detector reported something; that is not a
+			// failure of this sub-check's oracle (the driver collects the race reports themselves)
+			if recorded || os.Getenv("GORACE") == "" {
+				promote(s.Name)
+			}
 		}
 	}()
 	if n := Scale(s.Q, s.T); n > 0 {
